@@ -46,6 +46,8 @@ class Counts:
 # ------------------------------------------------------------------------------------ cases
 def gen_case(g, nextval=None, max_shape=4, explicit=0.0):
     name = g.choice(sorted(FAM))
+    # signed, small values: partial sums cancel to exactly the default and come back
+    pool = g.choice([[1, 2, 3, 4], [-2, -1, 1, 2], [-1, 1], [-3, -2, -1, 1, 2, 3, 4]])
     out, ops = FAM[name]
     idxs = sorted({i for _, idx in ops for i in idx})
     shapes = {i: g.randint(1, max_shape) for i in idxs}
@@ -56,7 +58,7 @@ def gen_case(g, nextval=None, max_shape=4, explicit=0.0):
         for pt in itertools.product(*[range(shapes[i]) for i in idx]):
             r = g.random()
             if r < dens:
-                ent.append([list(pt), g.randint(1, 4)])
+                ent.append([list(pt), g.choice(pool)])
             elif r < dens + explicit * (1 - dens):
                 ent.append([list(pt), 0])       # explicit default stored in the operand
         vals[nm] = ent
